@@ -1,0 +1,109 @@
+// SPDX-License-Identifier: Apache-2.0 OR MIT
+
+//! Verification hooks (only with `--cfg fast_tlsh_verif`).
+//!
+//! Nothing in this module is part of the public API of this crate.  It is
+//! compiled only when `--cfg fast_tlsh_verif` is passed to rustc and exists
+//! so that external runtime monitors can:
+//!
+//! *   construct a generator from (and read back) an explicit internal state
+//!     (see [`GeneratorState`]),
+//! *   call the two bucket mapping functions directly,
+//! *   call every compiled body-distance / bucket-aggregation back end
+//!     (re-exported from their modules),
+//! *   observe the run-time dispatch initialization and
+//! *   observe whether every `invariant!()` expression evaluates to `true`
+//!     (only with the additional `--cfg fast_tlsh_verif_invariants`).
+
+/// The explicit internal state of a generator.
+///
+/// `buckets` always has 256 entries; only the first `NUMBER_OF_BUCKETS` ones
+/// are *effective* (the rest may or may not be tracked depending on the
+/// feature `opt-low-memory-buckets`).  `checksum` is padded to 3 bytes.
+#[derive(Debug, Clone, PartialEq, Eq)]
+pub struct GeneratorState {
+    /// The buckets.
+    pub buckets: [u32; 256],
+    /// The length (after the tail is filled).
+    pub len: u32,
+    /// The checksum bytes (first `SIZE_CKSUM` bytes are effective).
+    pub checksum: [u8; 3],
+    /// The tail (last bytes seen).
+    pub tail: [u8; 4],
+    /// The effective length of `tail`.
+    pub tail_len: u32,
+}
+
+/// TLSH's B (bucket) mapping on 256 (and 128) buckets.
+pub fn b_mapping_256(b0: u8, b1: u8, b2: u8, b3: u8) -> u8 {
+    crate::pearson::tlsh_b_mapping_256(b0, b1, b2, b3)
+}
+
+/// TLSH's B (bucket) mapping on 48 buckets.
+pub fn b_mapping_48(b0: u8, b1: u8, b2: u8, b3: u8) -> u8 {
+    crate::pearson::tlsh_b_mapping_48(b0, b1, b2, b3)
+}
+
+/// The event that a dispatched function is about to be called
+/// (before consulting the dispatch cache).
+pub const DISPATCH_EVENT_CALL: u8 = 0;
+/// The event that the dispatch initializer started to run.
+pub const DISPATCH_EVENT_INIT: u8 = 1;
+
+#[cfg(feature = "std")]
+static DISPATCH_OBSERVER: std::sync::OnceLock<fn(&'static str, u8)> = std::sync::OnceLock::new();
+
+/// Set the observer of the run-time dispatch (once per process).
+#[cfg(feature = "std")]
+pub fn set_dispatch_observer(observer: fn(&'static str, u8)) -> bool {
+    DISPATCH_OBSERVER.set(observer).is_ok()
+}
+
+/// Notify a dispatch event to the observer (if any).
+#[allow(dead_code)]
+#[inline]
+pub(crate) fn dispatch_event(name: &'static str, event: u8) {
+    #[cfg(feature = "std")]
+    if let Some(observer) = DISPATCH_OBSERVER.get() {
+        observer(name, event);
+    }
+    #[cfg(not(feature = "std"))]
+    {
+        let _ = (name, event);
+    }
+}
+
+#[cfg(feature = "std")]
+static INVARIANT_OBSERVER: std::sync::OnceLock<fn(&'static str, u32, &'static str, bool)> =
+    std::sync::OnceLock::new();
+
+/// Set the observer of `invariant!()` evaluations (once per process).
+///
+/// The observer receives the file, the line, the expression (as a string) and
+/// the value the expression evaluated to.
+#[cfg(feature = "std")]
+pub fn set_invariant_observer(observer: fn(&'static str, u32, &'static str, bool)) -> bool {
+    INVARIANT_OBSERVER.set(observer).is_ok()
+}
+
+/// Record an evaluation of an `invariant!()` site.
+#[allow(dead_code)]
+#[inline]
+pub(crate) fn invariant_site(file: &'static str, line: u32, expr: &'static str, value: bool) {
+    #[cfg(feature = "std")]
+    if let Some(observer) = INVARIANT_OBSERVER.get() {
+        observer(file, line, expr, value);
+    }
+    #[cfg(not(feature = "std"))]
+    {
+        let _ = (file, line, expr, value);
+    }
+}
+
+/// Whether `invariant!()` sites are observed in this build.
+pub const INVARIANTS_OBSERVED: bool = cfg!(all(
+    fast_tlsh_verif_invariants,
+    feature = "std",
+    not(feature = "unsafe"),
+    not(test)
+));
